@@ -97,6 +97,15 @@ var hostileTemplates = []func(t *rapid.T) string{
 	func(t *rapid.T) string { return "a.b.c.d.e.f.g = a.b.c.d.e.f.g.h.i.j()" + strings.Repeat(":m()", 50) },
 	func(t *rapid.T) string { return "local self = self function self:self() return self.self:self() end" },
 	func(t *rapid.T) string { return "_G._G._G.x = _G _G = _G._G print(_G.x._G)" },
+	func(t *rapid.T) string {
+		n := rapid.IntRange(1, 3).Draw(t, "nctx")
+		var b strings.Builder
+		for i := 0; i < n; i++ {
+			b.WriteString(rapid.SampledFrom(luagen.CtxTemplates).Draw(t, "ctxTpl"))
+			b.WriteString("\n")
+		}
+		return b.String()
+	},
 	// the input ends inside a token: every multi-character token form cut short at the end of the file
 	func(t *rapid.T) string {
 		head := rapid.SampledFrom([]string{"x = ", "local x = 1\nx = ", "f(", "t = { ", "", "return "}).Draw(t, "eofHead")
@@ -122,6 +131,10 @@ func genC01File(t *rapid.T, idx int) []byte {
 		}
 		for i := 0; i < nm; i++ {
 			toks, _ = luagen.Mutate(t, toks)
+		}
+		if rapid.IntRange(0, 2).Draw(t, "ctx") == 0 {
+			// grammatical statements that break a context condition (two <close>, goto without label, ...)
+			toks, _ = luagen.InsertTemplate(t, toks, rapid.SampledFrom(luagen.CtxTemplates).Draw(t, "ctxTpl"))
 		}
 		lay := luagen.LayoutCfg{Wild: rapid.Bool().Draw(t, "wild"), EOLs: []string{"\n", "\r\n", "\r"}, Comments: true, NonASCII: true, Astral: true, Shebang: true}
 		text, _ = luagen.Render(t, toks, lay)
